@@ -246,6 +246,10 @@ CFG = {
             "SELF ROWS (32 more `ret` cases per seed, known class xrefstm-self-entry-unchecked): B = the cross-reference stream object itself (stream layout) / the /XRefStm stream object (hybrid; its row in the table or in that very stream), aimed at the offset of a plain object, a stream, a forward-/Length stream, the container, into an object, at an endobj, at the header: "
             "must be rejected like every other mismatch; the unchanged code accepts them (entries of already registered identifiers are skipped) - the judge reports the known class only for exactly that shape (decided on the case: Driver/C03.lean isSelfRow) AND exactly the load 'as if the row were correct' (DocSpec.resolve of what the encoder wrote); any other accepted load is accepted-but-must-reject; "
             "corpus/C03/known_xrefstm-self-entry-unchecked.case (hand-built `selfrow <hex> <exact load>` lines: the 136-byte witness file, the 170-byte first instance, a hybrid; judged by the same rule); "
+            "TIGHTLY PACKED OBJECT STREAMS (`pack`, added after the missed seed C03_9: a member written back to back with its predecessor reported as 'parsed past offset', the stream abandoned, the document loaded with members missing - C14 caught it, C03 did not because DocSpec.mkContainer writes a space after every member): for every seed 288 documents (cross-reference stream / hybrid) whose object stream 20 is laid out by hand in the driver "
+            "(packData / packContainer; same dictionary and meaning as mkContainer): seven members, one of every kind (dictionary, array, string, name, integer, real, boolean; random values and spellings) in an order bringing every kind behind every other; separators between consecutive members: NONE wherever the spellings allow it (predecessor ends in `>>` `]` `)` `>` or successor starts with a delimiter), one space, one newline, a comment + end of line, a long run (blanks, NUL, FF, CR LF, comment), or all in turn; "
+            "the declared offset of a member = its first byte, or = the END of its predecessor (the separator is leading white space of the member); first member exactly at /First after one byte / after NO byte (header number directly followed by a delimiter) / after a long run with a comment, or white space after /First (first offset > 0); the data ends with the last member / a space / blank lines; header pairs separated by single spaces / one per line / with leading zeros (`007 00`) / long mixed runs; "
+            "optionally FlateDecode'd; oracle DocSpec.resolve (every member defined with its value); corpus/C03/objstm_members_back_to_back.case (hand-built minimal instances: `<</K 1>>[2 3]`, `(a)<4142>/N[7]`, offset at the end of the predecessor, no byte before /First, leading zeros, comment as only separator, with a spaced control); "
             "every 4th document again with the offsets of two in-use "
             "entries exchanged (must be rejected); every 2nd with one corruption (truncate, alter/delete/insert a byte, replace a number by an extreme "
             "one, cut the middle) judged for correspondence and no panic. Oracle = DocSpec.resolve on what the encoder wrote (never the model); it also "
